@@ -15,9 +15,10 @@ var attrNames = []string{"a", "b", "c", "d"}
 var leafNames = []string{"string", "int", "boolean", "float64", "bytes", "any", "string", "int", "Empty"}
 
 type rgen struct {
-	r    *rand.Rand
-	g    Graph
-	maxN int
+	r     *rand.Rand
+	g     Graph
+	maxN  int
+	share int // out of 10: how often a type position refers to a user type that exists already (sharing, recursion)
 }
 
 func (x *rgen) users() []int {
@@ -68,9 +69,9 @@ func (x *rgen) term(depth int) Ref {
 		c = 9
 	}
 	switch {
-	case c < 2 && len(us) > 0:
+	case c < x.share && len(us) > 0:
 		return Ref{P: "-", N: us[r.Intn(len(us))]}
-	case c < 4 || !canNew:
+	case c < x.share+2 || !canNew:
 		return Ref{P: leafNames[r.Intn(len(leafNames))]}
 	}
 	id := len(x.g.Nodes) + 1
@@ -142,15 +143,65 @@ func wellFormed(g Graph) bool {
 	return true
 }
 
+// a user type that is not recursive and is referenced from two places (TypeGraph!SharedUsers)
+func hasDAGSharing(g Graph) bool {
+	for i, nd := range g.Nodes {
+		if isUserKind(nd.Kind) && refsTo(g, i+1) >= 2 && !onCycle(g, i+1) {
+			return true
+		}
+	}
+	return false
+}
+
+// every third graph is drawn until it has DAG sharing (the plain distribution yields it in one graph out of
+// twenty, and a single node in almost half)
 func randGraph(r *rand.Rand) Graph {
-	for {
-		x := &rgen{r: r, maxN: 2 + r.Intn(4)}
+	shared := r.Intn(3) == 0
+	for try := 0; ; try++ {
+		x := &rgen{r: r, maxN: 2 + r.Intn(4), share: 2 + 3*r.Intn(2)} // every other graph: many references to the same user types
+		if shared {
+			x.maxN, x.share = 3+r.Intn(3), 5
+		}
 		root := x.term(0)
 		x.g.Root = root
-		if wellFormed(x.g) {
+		if wellFormed(x.g) && (!shared || try > 500 || hasDAGSharing(x.g)) {
 			return x.g
 		}
 	}
+}
+
+// node i lies on a cycle (TypeGraph!OnCycle)
+func onCycle(g Graph, i int) bool {
+	seen := map[int]bool{}
+	var todo []int
+	push := func(k int) {
+		for _, a := range g.Nodes[k-1].Attrs {
+			if a.Ref.N > 0 && !seen[a.Ref.N] {
+				seen[a.Ref.N] = true
+				todo = append(todo, a.Ref.N)
+			}
+		}
+	}
+	push(i)
+	for len(todo) > 0 {
+		k := todo[0]
+		todo = todo[1:]
+		push(k)
+	}
+	return seen[i]
+}
+
+// number of references (attributes) that lead to node u
+func refsTo(g Graph, u int) int {
+	n := 0
+	for _, nd := range g.Nodes {
+		for _, a := range nd.Attrs {
+			if a.Ref.N == u {
+				n++
+			}
+		}
+	}
+	return n
 }
 
 func hasName(nd Node, s string) bool {
@@ -162,9 +213,10 @@ func hasName(nd Node, s string) bool {
 	return false
 }
 
-// the transformations TypeGraph!Transforms(g, TRUE) allows, one drawn at random
-func randTransform(r *rand.Rand, g Graph) Transform {
-	var ts []Transform
+// the transformations TypeGraph!Transforms(g, TRUE) allows, one drawn at random; sharing: one of those that
+// change the sharing structure, if the graph has any
+func randTransform(r *rand.Rand, g Graph, sharing bool) Transform {
+	var ts, sh []Transform
 	t0 := func(op string, n, i int) Transform { return Transform{Op: op, Node: n, Idx: i, Perm: []int{}} }
 	ts = append(ts, t0("copy", 0, 0), t0("copyatt", 0, 0))
 	rev := false
@@ -221,11 +273,29 @@ func randTransform(r *rand.Rand, g Graph) Transform {
 			if a.Ref.N == 0 && a.Ref.P != "Empty" {
 				ts = append(ts, t0("prim", id, ix))
 			}
+			// the transformations that change the sharing structure (weighted: they are few)
+			if u := a.Ref.N; u > 0 && isUserKind(g.Nodes[u-1].Kind) {
+				sh = append(sh, t0("hollow", id, ix))
+				if !onCycle(g, u) && refsTo(g, u) >= 2 {
+					sh = append(sh, t0("unshare", id, ix), t0("unshare", id, ix), t0("unshare", id, ix))
+				}
+				for j, other := range g.Nodes {
+					t := t0("redir", id, ix)
+					t.To = j + 1
+					if j+1 != u && other.Kind == g.Nodes[u-1].Kind && wellFormed(reshare(g, t)) {
+						sh = append(sh, t, t)
+					}
+				}
+			}
 		}
 	}
 	if rev {
 		ts = append(ts, t0("rev", 0, 0))
 	}
+	if sharing && len(sh) > 0 {
+		return sh[r.Intn(len(sh))]
+	}
+	ts = append(ts, sh...)
 	return ts[r.Intn(len(ts))]
 }
 
@@ -281,7 +351,7 @@ func random(w *vio.Writer, r *rand.Rand, n int) {
 		orig := build(g)
 		base, bst := hashes(orig.root)
 		for k := 0; k < 3; k++ {
-			t := randTransform(r, g)
+			t := randTransform(r, g, k == 2)
 			o, tg := judge(g, orig, base, bst, t)
 			if o.Panic != "" {
 				w.Emit(map[string]any{"ev": "panic", "t": t, "panic": o.Panic})
